@@ -1782,14 +1782,14 @@ class ContentFile(File):
     classes = ContentFileClasses()
 
     def _calc_hash(self) -> str:
-        # Use filesystem.open() to avoid triggering a recursive hash update.
-        try:
-            with self.filesystem.open(self.path, mode="rb") as infile:
-                content_hash = hash_stream(infile)
-        except FileNotFoundError:
+        if not self.filesystem.exists(self.path):
             # Like File, a missing path hashes deterministically instead of raising, so that
             # a deleted output invalidates a cached result rather than failing the run.
             content_hash = ""
+        else:
+            # Use filesystem.open() to avoid triggering a recursive hash update.
+            with self.filesystem.open(self.path, mode="rb") as infile:
+                content_hash = hash_stream(infile)
         return hash_struct([self.type_basename, self.path, content_hash])
 
 
